@@ -24,13 +24,13 @@ NOT_APPLICABLE = [
 ]
 # properties for which no check is registered (yet): listed as not claimed so that MANIFEST stays truthful
 _PENDING = {
-    'C01': 'no check built yet (planned: Kani contracts on noise-placement kernels); the ring identity phase = m + e needs DFT exactness and is not decidable by contracts',
-    'C02': 'no check built yet (planned: bounded Kani harnesses on GLWE wrappers); HAL column ops are covered under C09/C08',
-    'C06': 'no check built yet (planned: Kani contracts on sampling kernels); statistical claims are not contract properties',
+    'C01x': 'no check built yet (planned: Kani contracts on noise-placement kernels); the ring identity phase = m + e needs DFT exactness and is not decidable by contracts',
+    'C02x': 'no check built yet (planned: bounded Kani harnesses on GLWE wrappers); HAL column ops are covered under C09/C08',
+    'C06x': 'no check built yet (planned: Kani contracts on sampling kernels); statistical claims are not contract properties',
     'C07': 'no check built yet (planned: Kani on NTT120 scalar conversions); FFT64 exactness is floating point and out of reach',
     'C10': 'no check built yet (planned: Kani AVX kernel == reference kernel equivalence)',
-    'C14': 'no check built yet (planned: bounded Kani on the clear LUT path)',
-    'C19': 'no check built yet (planned: bounded Kani on decompress mask order)',
+    'C14x': 'no check built yet (planned: bounded Kani on the clear LUT path)',
+    'C19x': 'no check built yet (planned: bounded Kani on decompress mask order)',
 }
 
 
@@ -204,6 +204,74 @@ PROPS['C03'] = dict(
     remainder='everything that multiplies polynomials (gadget product), noise bounds, trace/packing/LWE conversion semantics',
 )
 
+BOUNDED_EXPL = 'bounded symbolic execution of the real code under the stated shape bounds (values fully symbolic); not a proof'
+
+PROPS['C14'] = dict(
+    level='other',
+    technique='Kani bounded contract check of the real clear lookup-table path (lookup_table_set + lookup_table_rotate) against the indexing formula, every rotation index symbolic',
+    level_text='Bounded: N = 4, extension factor 1 and 2, table lengths 2 and 4, entries symbolic: for every rotation index t in [0, 2*N*ext) the constant coefficient equals +-f[floor((t+drift)/step)]*scale with the negacyclic sign. Complete in values and index, bounded in shape.',
+    level_note='Only the clear path on a marker module (coefficient-domain HAL ops); blind rotation under encryption (external products) is undecided; mod_switch_2n not covered.',
+    explanation=BOUNDED_EXPL,
+    units=[K('poulpy-bin-fhe', 'blind_rotation::lut::verif_kani', ['c14_lut_clear__n4_ext1_f4', 'c14_lut_clear__n4_ext1_f2'], cls='bounded', timeout=1500,
+             bound='N=4, ext=1, table length 4 / 2, base2k=4, k=3', functions=['LookupTableFactory::lookup_table_set', 'LookupTableFactory::lookup_table_rotate']),
+           K('poulpy-bin-fhe', 'blind_rotation::lut::verif_kani', ['c14_lut_clear__n4_ext2_f4'], cls='bounded', tier='thorough', timeout=2400,
+             bound='N=4, ext=2, table length 4')],
+    trusted_base=[FMT_STUB],
+    assumptions=['Module::new_marker: these routines use only coefficient-domain operations'],
+    remainder='blind rotation under an LWE ciphertext, mod_switch_2n, key distributions, limbs above the noise floor',
+)
+
+PROPS['C19'] = dict(
+    level='other',
+    technique='Kani bounded contract check of the real GLWE decompression: mask columns equal the seeded stream in encryption order, body copied, receiver contents irrelevant (ChaCha8 stream abstracted to a symbolic tape)',
+    level_text='Bounded: N = 2, rank 2, size 2, seed and every stream word symbolic: column 0 is the stored body, mask column i / limb j / coefficient k equals draw (i-1)*size*N + j*N + k (columns 1..rank in order on one stream seeded by the stored seed), exactly rank*size*N draws, stale receiver contents do not matter.',
+    level_note='The symbolic tape replaces ChaCha8 (Source::new runs cpuid: unsupported); that the encryption side fills columns 1..rank in the same order is a syntactic fact of glwe_encrypt_sk_internal, not checked here; body equality needs the DFT and is undecided; GGLWE/GGSW/key decompression not covered.',
+    explanation=BOUNDED_EXPL,
+    units=[K('poulpy-cpu-ref', 'verif_kani', ['c19_glwe_decompress_mask_order__n2_rank2_size2'], cls='bounded', timeout=1500,
+             bound='N=2, rank=2, size=2', functions=['GLWEDecompress::decompress_glwe', 'vec_znx_fill_uniform_ref', 'VecZnx::fill_uniform'])],
+    trusted_base=[FMT_STUB],
+    assumptions=['stream abstraction: every u64 drawn from ChaCha8 is an independent symbolic value'],
+    remainder='bit-identity of the body with standard encryption (DFT), GGLWE/GGSW/switching/automorphism/tensor/blind-rotation key decompression, serialisation after compression',
+)
+
+PROPS['C02'] = dict(
+    level='other',
+    technique='Kani bounded contract check of the real GLWE operation wrappers (trait default methods) on a marker module against the column-wise ring operation; Verus proofs of the HAL column operations they delegate to (C09/C08)',
+    level_text='Bounded in shape (N = 2/4, ranks 0..2, sizes 1..2), complete in limb values and in the rotation amount (all i64): add, sub, their in-place forms, negate, copy, rotate, rotate_assign, mul_xp_minus_one equal the ring operation applied column by column with the documented size and rank rule; column-wise equality implies phase equality for every key.',
+    level_note='GGSW variants, shifts (lsh/rsh) and glwe_normalize (incl. cross-radix) are not covered; the HAL operations underneath are proved unbounded in the C09 check.',
+    explanation=BOUNDED_EXPL,
+    units=[K('poulpy-cpu-ref', 'verif_kani::c02', ['c02_glwe_add_sub__ranks_1_1', 'c02_glwe_add_sub__ranks_2_0', 'c02_glwe_add_sub__ranks_0_1', 'c02_glwe_assign_negate_copy__rank1', 'c02_glwe_rotate_mul_xp__n4_rank1'],
+             cls='bounded', timeout=1500, bound='N=2 (N=4 for rotations), ranks 0..2, sizes 1..2',
+             functions=['GLWEAdd::glwe_add_into/assign', 'GLWESub::glwe_sub/sub_assign', 'GLWENegate::glwe_negate', 'GLWECopy::glwe_copy', 'GLWERotate::glwe_rotate/rotate_assign', 'GLWEMulXpMinusOne::glwe_mul_xp_minus_one']),
+           V('vec_znx_arith'), V('vec_znx_ring')],
+    trusted_base=VERUS_TRUST + [FMT_STUB],
+    assumptions=['no i64 overflow in limb sums (|x| <= 2^61)'],
+    remainder='GGSW variants, glwe_lsh/rsh, glwe_normalize incl. cross-radix, one unit of the last limb per truncated operand (no truncation occurs in these ops)',
+)
+
+PROPS['C01'] = dict(
+    level='proof',
+    technique='Kani loop-free contract check of the real NoiseInfos::target_limb_and_scale (where and at which scale the fresh error is injected)',
+    level_text='Complete for every precision k in 1..=2^32 and every radix 1..=64: the error limb is ceil(k/base2k)-1 and the scale exponent is (limb+1)*base2k-k in [0, base2k), i.e. the error enters exactly at precision k.',
+    level_note='Only the placement of the error; the ring identity phase = m + e through the DFT domain, the public-key 1-norm bound and the sampling distribution are undecided. f64::exp2 is abstracted (the harness checks its argument).',
+    units=[K('poulpy-hal', 'verif_kani', ['c01_noise_target_limb_and_scale'], cls='complete', timeout=600, functions=['NoiseInfos::target_limb_and_scale'])],
+    trusted_base=['f64::exp2 abstracted to its argument'],
+    assumptions=[],
+    remainder='phase = message + error (needs exact DFT products), public-key encryption bound, decryption rounding, four backends',
+)
+
+PROPS['C06'] = dict(
+    level='proof',
+    technique='Kani contract check of the real uniform sampling kernels with the ChaCha8 stream abstracted to a symbolic tape: range, bijection on the low bits, one draw per coefficient, column frame',
+    level_text='Complete in stream values and radix (1..=62/63), bounded in shape (N=2, size 2): every mask limb lies in [-2^(b-1), 2^(b-1)) and is a bijective image of the low b bits of exactly one stream word, coefficients consume the stream in order (limb-major), other columns are untouched; next_u64n never rejects for power-of-two bounds.',
+    level_note='Statistical claims (sigma of the error, uniformity of ChaCha8 itself) and seed separation of the encryption routines are not contract properties / not covered; Source::new is abstracted (cpuid).',
+    units=[K('poulpy-hal', 'verif_kani', ['c06_next_u64n_power_of_two', 'c06_vec_znx_fill_uniform__n2_size2'], cls='complete', timeout=900, functions=['Source::next_u64n', '<VecZnx as FillUniform>::fill_uniform']),
+           K('poulpy-cpu-ref', 'verif_kani', ['c06_vec_znx_fill_uniform_ref__n2_size2'], cls='complete', timeout=900, functions=['znx_fill_uniform_ref', 'vec_znx_fill_uniform_ref'])],
+    trusted_base=[],
+    assumptions=['stream abstraction: every u64 drawn from ChaCha8 is an independent symbolic value'],
+    remainder='empirical sigma, uniformity of the generator, determinism in (plaintext, secret, seeds) and seed separation of every key-material routine',
+)
+
 for _p, _r in _PENDING.items():
-    if _p not in PROPS:
+    if _p not in PROPS and not _p.endswith('x'):
         NOT_APPLICABLE.append(dict(property_id=_p, reason=_r))
